@@ -106,6 +106,22 @@ impl ProofLedger {
         }
         false
     }
+    /// Like `proven_by_signature`, but every challenge justifies only one session: returns the index of a
+    /// not yet consumed challenge of `node` that a delivered handshake of `claimed` verifies against.
+    pub fn fresh_proof(&self, node: usize, node_id_of_node: &NodeId, claimed: &NodeId, pubkey: Option<&CombinedPublicKey>, consumed: &std::collections::BTreeSet<usize>) -> Option<usize> {
+        let pk = pubkey?;
+        for (n, th, src, sid, sig, ephem) in &self.handshakes {
+            if *n != node || sid != claimed {
+                continue;
+            }
+            for (ci, (cn, tc, dst, did, cd)) in self.challenges.iter().enumerate() {
+                if *cn == node && tc <= th && dst == src && did == claimed && !consumed.contains(&ci) && toolkit::verify_id_signature(pk, ephem, cd, node_id_of_node, sig) {
+                    return Some(ci);
+                }
+            }
+        }
+        None
+    }
     pub fn own_initiative(&self, node: usize, claimed: &NodeId, addr: Option<SocketAddr>) -> bool {
         self.own_handshakes.iter().any(|(n, _, dst, did)| *n == node && did == claimed && addr.map(|a| a == *dst).unwrap_or(true))
             && self.own_contacts.iter().any(|(n, cid, caddr)| *n == node && cid == claimed && addr.map(|a| a == *caddr).unwrap_or(true))
@@ -139,6 +155,21 @@ async fn c01_async(ctx: &mut Ctx) {
     // record) it presents a validly signed record of another identity
     let lying_peer: Option<usize> = if ctx.tape.choose(3) == 0 { Some(1 + ctx.tape.choose((n_honest - 1) as u32) as usize) } else { None };
     let lie_kind = ctx.tape.choose(4);
+    // what the victim's application already holds about the adversary's *own* identity when that identity
+    // handshakes (its handshakes attach a record with seq 3): nothing, an older record, one with the same
+    // sequence number but other content, or a newer one
+    let adv_known: Option<Enr> = match ctx.tape.choose(4) {
+        0 => None,
+        k => {
+            let a = w.attacker_addrs[0];
+            let ip = match a.ip() {
+                IpAddr::V4(v) => v.octets(),
+                _ => [0; 4],
+            };
+            Some(ident::record(ident::RecSpec { ident: adv.ident, seq: 1 + k as u64, ip4: Some((ip, a.port())), ip6: None, pad: 1 }))
+        }
+    };
+    let mut last_self_attached: Option<Enr> = None;
     w.profile.jitter_ms = *ctx.tape.pick(&[0u32, 3]);
     ctx.ev(format!("cfg honest={n_honest} x_running={x_running} knowledge={knowledge} seqs={:?} attacker={}", w.nodes.iter().map(|n| n.enr.seq()).collect::<Vec<_>>(), short_id(&adv.id)));
     // registry id -> public key
@@ -184,6 +215,7 @@ async fn c01_async(ctx: &mut Ctx) {
     let mut genuine_sigs: BTreeMap<usize, (Vec<u8>, Vec<u8>)> = BTreeMap::new();
     let mut next_rid = 1u64;
     let mut keys_checked = 0usize;
+    let mut consumed: std::collections::BTreeSet<usize> = Default::default();
 
     loop {
         if ctx.failed() {
@@ -208,6 +240,21 @@ async fn c01_async(ctx: &mut Ctx) {
                         format!("n{node} derived session keys for remote id {} although no handshake signed by that id's key over one of n{node}'s own WHOAREYOUs was delivered", short_id(&k.remote)),
                         &tags,
                     );
+                } else {
+                    // "its own *fresh* WHOAREYOU": each challenge is answered once; whoever re-presents an
+                    // already used answer does not hold the key
+                    match ledger.fresh_proof(node, &k.local, &k.remote, registry.get(&k.remote.raw()), &consumed) {
+                        Some(ci) => {
+                            consumed.insert(ci);
+                        }
+                        None => {
+                            ctx.fail(
+                                "c01.session-from-replayed-proof",
+                                format!("n{node} derived session keys for remote id {} again from a handshake answering a WHOAREYOU that had already been answered (a replay proves nothing about who sent it)", short_id(&k.remote)),
+                                &["session-without-proof"],
+                            );
+                        }
+                    }
                 }
             }
         }
@@ -227,6 +274,12 @@ async fn c01_async(ctx: &mut Ctx) {
                             if let Some(pos) = pending_attacks.iter().position(|(p, src)| p.victim == from && *src == rec.dst && (if p.as_self { adv.id } else { w.nodes[p.claimed].id }) == rec.dst_id) {
                                 let (plan, src) = pending_attacks.remove(pos);
                                 if let Some(bytes) = craft_handshake(ctx, &w, &adv, &plan, &d.authenticated_data, src, &genuine_sigs) {
+                                    if plan.as_self {
+                                        last_self_attached = toolkit::decode_packet(&w.nodes[plan.victim].id, &bytes).ok().and_then(|p| match p.kind {
+                                            PacketKind::Handshake { enr_record, .. } => enr_record,
+                                            _ => None,
+                                        });
+                                    }
                                     ctx.ev(format!("t={} ATTACK handshake claiming n{} from {src} {plan:?}", now_ms(), plan.claimed));
                                     ctx.fault("forged_handshake");
                                     w.schedule(1, Ev::Custom(X::Inject { to: plan.victim, src, bytes, tag: "forged-handshake" }));
@@ -236,6 +289,28 @@ async fn c01_async(ctx: &mut Ctx) {
                         PacketKind::Handshake { id_nonce_sig, ephem_pubkey, .. } => {
                             ledger.own_handshakes.push((from, now_ms(), rec.dst, rec.dst_id));
                             genuine_sigs.insert(from, (id_nonce_sig.clone(), ephem_pubkey.clone()));
+                            // the adversary damages the message part of a genuine handshake in flight (the id
+                            // signature does not cover it) and keeps re-presenting the damaged datagram
+                            if let Some(to) = w.node_by_addr(&rec.dst) {
+                                let first_tx = !w.wire[..wi].iter().any(|r| r.from == from && r.bytes == rec.bytes);
+                                if first_tx && ctx.tape.choose(6) == 0 {
+                                    let mut bytes = rec.bytes.clone();
+                                    let l = bytes.len();
+                                    bytes[l - 1 - ctx.tape.choose(8) as usize] ^= 1 << ctx.tape.choose(8);
+                                    ctx.fault("genuine_handshake_damaged_and_replayed");
+                                    ctx.ev(format!("t={} n{from}->n{to} HANDSHAKE damaged in its message part, delivered repeatedly", now_ms()));
+                                    let tmo = w.nodes[to].cfg.request_timeout_ms;
+                                    let mut at = 1u64;
+                                    for _ in 0..(2 + ctx.tape.choose(3)) {
+                                        w.schedule(at, Ev::Custom(X::Inject { to, src: rec.src, bytes: bytes.clone(), tag: "damaged-genuine-handshake" }));
+                                        at += 1 + ctx.tape.choose(tmo as u32) as u64;
+                                    }
+                                    if ctx.tape.choose(2) == 0 {
+                                        w.schedule(at, Ev::Custom(X::Inject { to, src: rec.src, bytes: rec.bytes.clone(), tag: "late-genuine-handshake" }));
+                                    }
+                                    continue;
+                                }
+                            }
                         }
                         _ => {}
                     }
@@ -316,6 +391,25 @@ async fn c01_async(ctx: &mut Ctx) {
                         ctx.count("attacker_proved_its_own_id");
                     }
                 }
+                // C12: a record learnt from a handshake replaces the one already held only with a strictly higher
+                // sequence number (the adversary's own identity handshakes with a seq-3 record of other content
+                // than the one the victim's application holds)
+                if let HandlerOut::Established(enr, _, _) = &ev {
+                    if enr.node_id() == adv.id {
+                        if let (Some(known), Some(attached)) = (&adv_known, &last_self_attached) {
+                            ctx.count("known_vs_attached_record_checked");
+                            let expect = if attached.seq() > known.seq() { attached } else { known };
+                            if enr != expect {
+                                ctx.fail(
+                                    "c12.record-replaced-without-higher-seq",
+                                    format!("n{node} reported Established for {} with the record of seq {} attached to the handshake although it held one with seq {} (a record replaces a held one only with a strictly higher sequence number)", short_id(&adv.id), enr.seq(), known.seq()),
+                                    &[],
+                                );
+                                break;
+                            }
+                        }
+                    }
+                }
                 // C12 handshake half: incoming Established => record address equals the observed source
                 if let HandlerOut::Established(enr, addr, ConnectionDirection::Incoming) = &ev {
                     if let (Some(adv4), SocketAddr::V4(obs4)) = (enr.udp4_socket(), addr) {
@@ -329,7 +423,10 @@ async fn c01_async(ctx: &mut Ctx) {
                 match ev {
                     HandlerOut::WhoAreYou(wref) => {
                         let known = w.known_record(&wref.0.node_id);
-                        let enr = match knowledge {
+                        let enr = if wref.0.node_id == adv.id {
+                            adv_known.clone()
+                        } else {
+                            match knowledge {
                             0 => known,
                             1 => None,
                             _ => known.map(|e| {
@@ -339,6 +436,7 @@ async fn c01_async(ctx: &mut Ctx) {
                                 c.enr_seq = c.enr_seq.saturating_sub(1).max(1);
                                 HWorld::<X>::record_for(&c, idx)
                             }),
+                            }
                         };
                         ctx.ev(format!("t={t} n{node} out WhoAreYou({}) -> app knows seq {:?}", short_id(&wref.0.node_id), enr.as_ref().map(|e| e.seq())));
                         w.schedule(0, Ev::Custom(X::AppWhoAreYou { node, wref, enr }));
